@@ -116,3 +116,12 @@ Definition QualifyReferences_ref (res : list (qobj * option nat)) (target : qobj
   else RefMissing.
 (* the key of a table spec in byRef *)
 Definition byRef_key (e : qobj * option nat) : option nat * nat := (snd e, q_label (fst e)).
+
+(** The document is ambiguous when a block written with one label ([table "s2"]) carries the name
+    that another block of the same kind uses as its qualifier ([table "s2" "s1"]): [table.s2.s1] is
+    then both a table and an attribute of a table. *)
+Definition ambiguousb (res : list (qobj * option nat)) : bool :=
+  existsb (fun e => match snd e with
+                    | None => existsb (fun e' => opt_nat_eqb (snd e') (Some (q_label (fst e)))) res
+                    | Some _ => false
+                    end) res.
